@@ -106,13 +106,16 @@ def perturbations(d):
         e = dict(d)
         e[k] = None
         out.append(("required-removed:" + k, e))
-    fill = {"-twopl": True, "-n2": 2, "-n3": 1, "-t2": 0.5, "-llq": 0, "-luq": 2,
-            "-lt": 1, "-uq": max(d["-n1"], 2), "-lq": 0}
+    # each inapplicable parameter is supplied once with the value that happens
+    # to be its documented default and once with another value
+    fill = {"-twopl": [True], "-n2": [2], "-n3": [1], "-t2": [0.0, 0.5], "-llq": [0, 1],
+            "-luq": [2], "-lt": [0, 1], "-uq": [max(d["-n1"], 2)], "-lq": [0, 1]}
     for k in INAPPLICABLE[mp]:
         if d.get(k) is None:
-            e = dict(d)
-            e[k] = fill[k]
-            out.append(("inapplicable-added:" + k, e))
+            for val in fill[k]:
+                e = dict(d)
+                e[k] = val
+                out.append(("inapplicable-added:%s=%s" % (k, val), e))
     m = d["-n1"] if mp == "sm" else d["-n2"]
 
     def viol(name, **kw):
@@ -174,6 +177,8 @@ def judge_illegal(desc, d, tally):
     tally.inc("nontrivial")
     exc = res["exc"]
     kind = desc.split(":")[0] + ":" + desc.split(":")[1].split("=")[0]
+    if desc.startswith("inapplicable-added") and desc.endswith(("=0", "=0.0")):
+        kind += "(default-valued)"
     if exc is None:
         tally.violation({"args": d, "argv": argv, "fault": desc, "legal": False,
                          "fingerprint": "illegal-accepted:%s:%s" % (d["-mp"], kind),
@@ -209,7 +214,9 @@ def main(tier):
     items = [("legal", "", d) for d in legal]
     base_for_faults = [d for d in legal
                        if d.get("-t1") is None and d.get("-skew") is None and
-                       d["-numinst"] == 1 and (tier == "thorough" or d["-n1"] <= 2)]
+                       d["-numinst"] == 1 and
+                       (tier == "thorough" or (d["-n1"] <= 2 and d.get("-lq") in (None, 1) and
+                                               d.get("-llq") in (None, 0)))]
     for d in base_for_faults:
         for desc, e in perturbations(d):
             items.append(("illegal", desc, e))
